@@ -521,6 +521,9 @@ expandfunc(struct macro *m)
 			t = rawnext();
 		}
 		if (p->flags & PARAMSTR) {
+			/* white space after the last token (a new-line) is not part of the spelling */
+			if (str.len > 1 && ((char *)str.val)[str.len - 1] == ' ')
+				--str.len;
 			arrayaddbuf(&str, "\"", 2);
 			arg[i].str = (struct token){
 				.kind = TSTRINGLIT,
